@@ -61,6 +61,7 @@ func extractValidationConstraints(field *protogen.Field, schema *base.Schema) {
 		applyIntegerRules[int64](fieldConstraints.GetSint64(), schema)
 		applyIntegerRules[uint64](fieldConstraints.GetFixed64(), schema)
 		applyIntegerRules[int64](fieldConstraints.GetSfixed64(), schema)
+		publishIntegerLiteralsAsStrings(schema)
 	case protoreflect.FloatKind:
 		applyFloatConstraints(fieldConstraints, schema)
 	case protoreflect.DoubleKind:
@@ -306,6 +307,21 @@ func applyIntegerRules[T int32 | uint32 | int64 | uint64](rules integerRules[T],
 		for _, value := range rules.GetIn() {
 			schema.Enum = append(schema.Enum, &yaml.Node{Kind: yaml.ScalarNode, Value: fmt.Sprint(value)})
 		}
+	}
+}
+
+// publishIntegerLiteralsAsStrings tags the const and enum values of a 64-bit integer field that is
+// published with type string (the default JSON encoding of 64-bit integers) as strings, which is
+// the form the values have on the wire; as numbers they matched no string at all.
+func publishIntegerLiteralsAsStrings(schema *base.Schema) {
+	if !slices.Contains(schema.Type, "string") {
+		return
+	}
+	if schema.Const != nil {
+		schema.Const.Tag = "!!str"
+	}
+	for _, value := range schema.Enum {
+		value.Tag = "!!str"
 	}
 }
 
